@@ -19,7 +19,7 @@ PID = "C11"
 LEVEL = "exploration"
 ENGINE = "hooksim"
 CHUNK = 32
-REACH = ['ipy:instrumented', 'ipy:plain', 'ipy:magic_inside_cell', 'par:runs_with_preemption', 'loaded_instrumented', 'loaded_plain', 'loaded_under_overlapping_hooks', 'op:uninstall', 'op:reload', 'histories_cross_validated_with_real_processes']  # counters (prefixes) that a healthy batch makes non-zero; gaps are reported in the evidence
+REACH = ['op:enter_later', 'ipy:instrumented', 'ipy:plain', 'ipy:magic_inside_cell', 'par:runs_with_preemption', 'loaded_instrumented', 'loaded_plain', 'loaded_under_overlapping_hooks', 'op:uninstall', 'op:reload', 'histories_cross_validated_with_real_processes']  # counters (prefixes) that a healthy batch makes non-zero; gaps are reported in the evidence
 BUDGET = {"quick": 35, "thorough": 600}
 RULE = (
     "Seeded single-process histories (bytecode caching off) of 6-16 operations: install_import_hook with "
